@@ -82,7 +82,7 @@ class WindEval(Evaluator):
         verts = SV("cyc", [Poly.atom(cyc.sym(c, 0)) for c in "xyz"])
         pts = SV("vec", [Poly.atom(f"p.{c}") for c in "xyz"])
         hooks = {
-            "_align_points_by_normal": lambda ev, n: SV("tuple", items=[ev.ev(n.args[1]), SV("rot")]),
+            "_align_points_by_normal": lambda ev, n: SV("tuple", items=[cyc.aligned_points_arg(ev, n), SV("rot")]),
             "np.atleast_2d": lambda ev, n: ev.ev(n.args[0]),
             "np.asarray": lambda ev, n: ev.ev(n.args[0]),
             "np.hstack": self._first_of_display, "np.column_stack": self._first_of_display, "np.concatenate": self._first_of_display,
